@@ -647,7 +647,7 @@ func runInstrumentedLogger(k *vf.Case) {
 
 func main() {
 	vf.Main("C10", "exploration", func(c *vf.Ctx) {
-		c.Rule = "seeded cases of 2-16 goroutines released by a barrier on 1-2 shared spans, each running a random list of End(+-timestamp)/SetAttributes(tagged group of 3)/AddEvent(3 tagged attributes)/AddLink/SetStatus/SetName/RecordError/IsRecording/child Start+End/Tracer lookup/Register+Unregister of a third processor; every case list is run without and with runtime/trace started; two recording processors; ReadLive (all ReadOnlySpan accessors on the live span) and RecordError with stack traces in the concurrent menu; -race; GOMAXPROCS{2,4,16}. distinct = distinct (mode, goroutines, procs, end-heavy, overlapping Ends observed, shared spans) signatures"
+		c.Rule = "seeded cases of 2-16 goroutines released by a barrier on 1-2 shared spans, each running a random list of End(+-timestamp)/SetAttributes(tagged group of 3)/AddEvent(3 tagged attributes)/AddLink/SetStatus/SetName/RecordError/IsRecording/child Start+End/Tracer lookup/Register+Unregister of a third processor; every case list is run without and with runtime/trace started; two recording processors; ReadLive (all ReadOnlySpan accessors on the live span) and RecordError with stack traces in the concurrent menu; -race; GOMAXPROCS{2,4,16}; a quarter of the shared spans record-only; RecordError with errors whose Error() panics; instrumented-logger family (the SDK's log calls re-enter the provider). distinct = distinct (mode, goroutines, procs, end-heavy, overlapping Ends observed, shared spans) signatures"
 		c.Assume = []string{"overlap of End calls is measured with a ticket clock; the traced and untraced floors require >= 1000 cases each in which two End calls truly overlapped"}
 		n := c.N(12_000, 300_000)
 		c.Cases("untraced", n, 1, func(k *vf.Case) { runCase(k, false) })
